@@ -58,6 +58,32 @@ def updateAllianceAsset (newAsset : Asset) : M Unit := do
                           changeRate := newAsset.changeRate, changeIntv := newAsset.changeIntv,
                           lastChange := lastChange, wmin := newAsset.wmin, wmax := newAsset.wmax }
 
+/-- an asset is charged the take rate iff it has stake, a positive rate and its rewards have started -/
+def takeRateChargeable (now : Time) (a : Asset) : Bool :=
+  decide (a.totalTokens > 0) && decide (a.takeRate > 0) && rewardsStarted a now
+
+/-- the new staked total after `n` claim intervals: ⌊T·(1-r)^n⌋ (with `Power` as the rounded loop), or `none` when
+    that would be ≤ 1 (the asset is then skipped) -/
+def takeRateNewTotal (a : Asset) (n : Nat) : Option Int :=
+  let newAmount := mulInt (power (one - a.takeRate) n) a.totalTokens
+  if newAmount ≤ one then none else some (truncateInt newAmount)
+
+/-- one asset's deduction step on the in-memory asset -/
+def takeRateStep (now : Time) (n : Nat) (a : Asset) : Asset :=
+  if takeRateChargeable now a then
+    match takeRateNewTotal a n with
+    | some t => { a with totalTokens := t }
+    | none => a
+  else a
+
+/-- the coins moved to the fee collector: per charged asset, old total minus new total -/
+def takeRateCoins (now : Time) (n : Nat) (assets : List Asset) : Coins :=
+  assets.foldl (fun (cs : Coins) (a : Asset) =>
+    Coins.add cs (Coins.single a.denom (a.totalTokens - (takeRateStep now n a).totalTokens))) []
+
+/-- number of whole claim intervals since the clock (Go: `uint64(duration / interval)`) -/
+def intervalsSince (now last : Time) (interval : Dur) : Int := (now - last).tdiv interval
+
 /-- `DeductAssetsWithTakeRate`; returns the updated in-memory asset list -/
 def deductAssetsWithTakeRate (lastClaim : Time) (assets : List Asset) : M (List Asset) := do
   let w ← getW
@@ -66,22 +92,13 @@ def deductAssetsWithTakeRate (lastClaim : Time) (assets : List Asset) : M (List 
     return assets
   let interval := w.params.takeRateInterval
   if interval = 0 then panicE "int_div_zero"
-  let n : Int := (w.time - lastClaim).tdiv interval
-  let chargeable (a : Asset) : Bool := decide (a.totalTokens > 0) && decide (a.takeRate > 0) && rewardsStarted a w.time
-  let newTotal (a : Asset) : Option Int :=
-    let newAmount := mulInt (power (one - a.takeRate) n.toNat) a.totalTokens
-    if newAmount ≤ one then none else some (truncateInt newAmount)
-  let step (a : Asset) : Asset :=
-    if chargeable a then match newTotal a with | some t => { a with totalTokens := t } | none => a else a
-  let coins : Coins := assets.foldl (fun (cs : Coins) (a : Asset) =>
-    if chargeable a then match newTotal a with
-      | some t => Coins.add cs (Coins.single a.denom (a.totalTokens - t))
-      | none => cs
-    else cs) []
+  let n : Int := intervalsSince w.time lastClaim interval
+  let coins : Coins := takeRateCoins w.time n.toNat assets
   forEachM (fun (a : Asset) =>
-    if chargeable a then match newTotal a with | some _ => setAsset (step a) | none => pure () else pure ()) assets
-  let assets' := assets.map step
-  if (assets.filter chargeable).length = 0 then
+    if takeRateChargeable w.time a ∧ (takeRateNewTotal a n.toNat).isSome then setAsset (takeRateStep w.time n.toNat a)
+    else pure ()) assets
+  let assets' := assets.map (takeRateStep w.time n.toNat)
+  if (assets.filter (takeRateChargeable w.time)).length = 0 then
     setLastRewardClaimTime w.time
     return assets'
   if coins.length ≠ 0 ∧ !Coins.isZero coins then
@@ -96,21 +113,32 @@ def deductAssetsHook (assets : List Asset) : M (List Asset) := do
   if w.time > last + w.params.takeRateInterval then deductAssetsWithTakeRate last assets
   else pure assets
 
+/-- the decayed weight after `n` change intervals: clamp(w · rate^n), `none` when `Power`/`Mul` overflow (Go panics) -/
+def decayedWeight (a : Asset) (n : Nat) : Option Dec :=
+  match powerChk a.changeRate n with
+  | none => none
+  | some mult =>
+    match mulChk a.weight mult with
+    | none => none
+    | some w0 =>
+      let w1 := if w0 < a.wmin then a.wmin else w0
+      some (if w1 > a.wmax then a.wmax else w1)
+
+/-- decay is due when it is configured and a whole interval has elapsed since the decay clock -/
+def decayDue (now : Time) (a : Asset) : Bool :=
+  !(decide (a.changeIntv = 0) || decide (a.changeRate = one)) && !(decide (a.lastChange + a.changeIntv > now))
+
 /-- `RewardWeightChangeHook` -/
 def rewardWeightChangeHook (assets : List Asset) : M (List Asset) := do
   let rec go : List Asset → List Asset → M (List Asset)
     | [], acc => pure acc.reverse
     | a :: rest, acc => do
       let w ← getW
-      if a.changeIntv = 0 ∨ a.changeRate = one then go rest (a :: acc)
-      else if a.lastChange + a.changeIntv > w.time then go rest (a :: acc)
+      if !decayDue w.time a then go rest (a :: acc)
       else
-        let n : Int := (w.time - a.lastChange).tdiv a.changeIntv
+        let n : Int := intervalsSince w.time a.lastChange a.changeIntv
         -- `Power` and `Mul` panic ("Int overflow") beyond 315 bits; reachable with a change rate above one
-        let some mult := powerChk a.changeRate n.toNat | panicE "overflow"
-        let some w0 := mulChk a.weight mult | panicE "overflow"
-        let w1 := if w0 < a.wmin then a.wmin else w0
-        let w2 := if w1 > a.wmax then a.wmax else w1
+        let some w2 := decayedWeight a n.toNat | panicE "overflow"
         let a' := { a with weight := w2, lastChange := a.lastChange + a.changeIntv * n }
         queueRebalance
         updateAllianceAsset a'
